@@ -1,11 +1,19 @@
 ------------------------------- MODULE MC_TokObj -------------------------------
 (* Bounded model of TokObj: every pair of evaluations over all sources up to 2 characters (quick) / 3 (thorough) of *)
-(* the 7-character alphabet x 3 separators, and every triple over the sources up to 1 character.                    *)
+(* the 7-character alphabet x 3 separators, every triple over the sources up to 1 character, and the life-cycle      *)
+(* histories: [setters] eval [done] [setters] eval over sources that use the stock and the custom special characters. *)
 EXTENDS TokObj
 Alpha7 == {97, 98, 32, 58, 39, 34, 92}
 Delims3 == {<<>>, <<58>>, <<58, 32>>}
 Src1 == InputsUpTo(1)
 Src2 == UNION {[1 .. k -> Alpha7] : k \in 0 .. 2}
 Src3 == UNION {[1 .. k -> {97, 32, 58, 34, 92}] : k \in 0 .. 3}
+\* custom special characters: quote '|' (124), dquote '#' (35), escape '^' (94)
+\*   a^ b   a\ b   |a b|   'a b'   #a:b#   "a:b"   a:b   ^:a
+LifeSrc == { <<97, 94, 32, 98>>, <<97, 92, 32, 98>>, <<124, 97, 32, 98, 124>>, <<39, 97, 32, 98, 39>>,
+             <<35, 97, 58, 98, 35>>, <<34, 97, 58, 98, 34>>, <<97, 58, 98>>, <<94, 58, 97>> }
+LifeSeps2 == {<<>>, <<58>>}
+CustomOnly == [q |-> {124}, dq |-> {35}, esc |-> {94}]                      \* quick
+CustomAndStock == [q |-> {124, 39}, dq |-> {35}, esc |-> {94, 92}]          \* thorough: setting a stock value back as well
 ObsEmitHist(op, args, ret, post) == PrintT(ToJson([h |-> args, lv |-> DebugLevels]))
 ================================================================================
